@@ -27,6 +27,41 @@ thread_local! {
     static CONFINED: Cell<bool> = const { Cell::new(false) };
     static BREACHES: RefCell<Vec<String>> = const { RefCell::new(Vec::new()) };
     static IN_MONITOR: Cell<bool> = const { Cell::new(false) };
+    /// Some(ns since the epoch) = this thread is inside a simulated compilation: every clock
+    /// read is answered from here (and advances it), and is counted
+    static SIM_CLOCK: Cell<Option<u64>> = const { Cell::new(None) };
+    static CLOCK_READS: Cell<u64> = const { Cell::new(0) };
+    /// the simulated date at which the compilations of this thread take place (seconds)
+    static EPOCH: Cell<u64> = const { Cell::new(DEFAULT_EPOCH) };
+}
+
+/// 2020-09-13T12:26:40Z: the date of every compilation that is not told otherwise
+pub const DEFAULT_EPOCH: u64 = 1_600_000_000;
+
+/// The simulated date (seconds since 1970) of the compilations this thread runs from now on.
+pub fn set_epoch(secs: u64) {
+    EPOCH.with(|e| e.set(secs));
+}
+
+/// Enter / leave a simulated compilation: inside, `clock_gettime`, `gettimeofday` and `time`
+/// read the simulated clock.
+pub fn set_sim_clock(on: bool) {
+    let v = if on { Some(EPOCH.with(Cell::get).saturating_mul(1_000_000_000)) } else { None };
+    SIM_CLOCK.with(|c| c.set(v));
+}
+
+/// clock reads made on this thread while a simulated clock was installed (cumulative)
+pub fn clock_reads() -> u64 {
+    CLOCK_READS.with(Cell::get)
+}
+
+/// Some(now) on a thread that is inside a simulated compilation; every read moves the clock on
+/// by a little over a millisecond.
+fn sim_now() -> Option<u64> {
+    let t = SIM_CLOCK.try_with(Cell::get).ok().flatten()?;
+    let _ = SIM_CLOCK.try_with(|c| c.set(Some(t + 1_000_003)));
+    let _ = CLOCK_READS.try_with(|c| c.set(c.get() + 1));
+    Some(t)
 }
 
 /// Give this thread a simulated entropy stream (call before the thread creates
@@ -255,6 +290,26 @@ pub fn selftest() -> Vec<String> {
             fails.push(format!("real-disk monitor missed {} (saw {:?})", want, br));
         }
     }
+    // the clock seam: inside a simulated compilation both std clocks read the simulated date
+    let clk = std::thread::spawn(|| {
+        set_epoch(1_234_567_890);
+        let before = clock_reads();
+        set_sim_clock(true);
+        let st = std::time::SystemTime::now().duration_since(std::time::UNIX_EPOCH).map(|d| d.as_secs()).unwrap_or(0);
+        let i1 = std::time::Instant::now();
+        let i2 = std::time::Instant::now();
+        set_sim_clock(false);
+        let real = std::time::SystemTime::now().duration_since(std::time::UNIX_EPOCH).map(|d| d.as_secs()).unwrap_or(0);
+        (st, i2.duration_since(i1).as_nanos(), clock_reads() - before, real)
+    })
+    .join()
+    .unwrap();
+    if clk.0 != 1_234_567_890 || clk.1 != 1_000_003 || clk.2 != 3 {
+        fails.push(format!("clock seam: SystemTime={} (want 1234567890), Instant step={} ns (want 1000003), reads={} (want 3)", clk.0, clk.1, clk.2));
+    }
+    if clk.3 < 1_700_000_000 {
+        fails.push(format!("clock seam still active outside a simulated compilation: {}", clk.3));
+    }
     // rand::thread_rng through the getrandom crate: exercised via unique-id()
     let uid = |key: u64| -> String {
         std::thread::spawn(move || {
@@ -302,6 +357,53 @@ pub unsafe extern "C" fn syscall(n: c_long, a1: usize, a2: usize, a3: usize, a4:
         return getrandom(a1 as *mut c_void, a2, a3 as c_uint) as c_long;
     }
     raw_syscall6(n, a1, a2, a3, a4, a5, a6)
+}
+
+// ---------------------------------------------------------------- clocks
+//
+// `std::time::Instant::now()` / `SystemTime::now()` reach libc's `clock_gettime`; C code and
+// older crates use `gettimeofday` / `time`. Inside a simulated compilation all of them read the
+// simulated clock of the thread, whose date the engine chooses (the reference of a job and the
+// observed run of the same job take place on different days); elsewhere they are the kernel's.
+
+#[no_mangle]
+pub unsafe extern "C" fn clock_gettime(clk: libc::clockid_t, ts: *mut libc::timespec) -> c_int {
+    if let Some(t) = sim_now() {
+        if !ts.is_null() {
+            (*ts).tv_sec = (t / 1_000_000_000) as libc::time_t;
+            (*ts).tv_nsec = (t % 1_000_000_000) as c_long;
+        }
+        return 0;
+    }
+    raw_syscall6(libc::SYS_clock_gettime, clk as usize, ts as usize, 0, 0, 0, 0) as c_int
+}
+
+#[no_mangle]
+pub unsafe extern "C" fn gettimeofday(tv: *mut libc::timeval, tz: *mut c_void) -> c_int {
+    if let Some(t) = sim_now() {
+        if !tv.is_null() {
+            (*tv).tv_sec = (t / 1_000_000_000) as libc::time_t;
+            (*tv).tv_usec = ((t % 1_000_000_000) / 1000) as libc::suseconds_t;
+        }
+        return 0;
+    }
+    raw_syscall6(libc::SYS_gettimeofday, tv as usize, tz as usize, 0, 0, 0, 0) as c_int
+}
+
+#[no_mangle]
+pub unsafe extern "C" fn time(tloc: *mut libc::time_t) -> libc::time_t {
+    let secs = match sim_now() {
+        Some(t) => (t / 1_000_000_000) as libc::time_t,
+        None => {
+            let mut ts: libc::timespec = std::mem::zeroed();
+            raw_syscall6(libc::SYS_clock_gettime, libc::CLOCK_REALTIME as usize, &mut ts as *mut _ as usize, 0, 0, 0, 0);
+            ts.tv_sec
+        }
+    };
+    if !tloc.is_null() {
+        *tloc = secs;
+    }
+    secs
 }
 
 // ---------------------------------------------------------------- yields and sleeps
